@@ -1,4 +1,5 @@
 """Generator of world histories (group and peer-to-peer topics): shared by the topic/store properties."""
+import re
 
 MODES = ["JRWPASDO", "JRWPAS", "JRWPS", "JRWP", "JRW", "JR", "JRP", "RWP", "JW", "J", "N", "JRWPSD", "JRWPASD", "JRWPA", "JRWPSO", "JP", "JRWS"]
 
@@ -233,6 +234,7 @@ def gen_case(rng, n_ops, faults=False, crashes=False):
     out = with_map_values(rng.fork("maps"), out)
     out = with_attachments(rng.fork("att"), out)
     out = with_sys(rng.fork("sys"), out, faults)
+    out = with_p2p_raw(rng.fork("p2praw"), out, faults)
     if me_on:
         out = with_me_tags(rng.fork("metags"), out, faults)
     out = with_deluser(rng.fork("deluser"), out, faults)
@@ -311,6 +313,38 @@ def with_sys(r2, out, faults):
         ins = [o]
         if faults and o.split(" ")[0] in ("sub", "pub", "setsub", "leave", "delmsg") and r2.chance(1, 5):
             ins.insert(0, f"fail {1 + r2.below(3)}")
+        out = out[:pos] + ins + out[pos:]
+    return out
+
+
+def with_p2p_raw(r2, out, faults):
+    """in half of the histories with p2p topics somebody who is not one of the two sends requests under the topic's routable name
+    (`P:Ua:Ub`, the `p2p…` name on the wire): nothing of it may get through; choices from a generator of their own"""
+    owner = {"S1": "U1", "S2": "U2", "S3": "U3", "S4": "U1", "S5": "U2", "S6": "U4", "S7": "U3"}
+    pairs = []      # (position of the first request to the topic, key)
+    for i, o in enumerate(out):
+        w = o.split(" ")
+        if len(w) >= 3 and w[1] in owner and re.fullmatch(r"U[1-4]", w[2]) and w[2] != owner[w[1]] and w[0] in ("sub", "pub"):
+            a, b = sorted([owner[w[1]], w[2]])
+            if not any(k == f"P:{a}:{b}" for _, k in pairs):
+                pairs.append((i, f"P:{a}:{b}"))
+    if not pairs or not r2.chance(1, 2):
+        return out
+    for _ in range(2 + r2.below(6)):
+        first, key = r2.choice(pairs)
+        pos = first + r2.below(max(1, len(out) - first + 1))
+        while pos > 0 and pos < len(out) and out[pos - 1].split(" ")[0] in ("fail", "crash"):
+            pos += 1
+        strangers = [s_ for s_, u in owner.items() if u not in key.split(":")[1:]]
+        s_ = r2.choice(strangers)
+        o = r2.choice([f"sub {s_} {key}", f"sub {s_} {key}", f"sub {s_} {key}", f"sub {s_} {key} mode={r2.choice(['JRWPA', 'JRWPASDO', 'N'])}",
+                       f"get {s_} {key} desc", f"get {s_} {key} sub", f"get {s_} {key} data", f"pub {s_} {key} X{pos}", f"setsub {s_} {key} mode=JRWPA",
+                       f"setsub {s_} {key} user={key.split(':')[1]} mode=N", f"setdesc {s_} {key} priv=x", f"leave {s_} {key}", f"leave {s_} {key} unsub=1",
+                       f"note {s_} {key} read 1", f"delmsg {s_} {key} 1:3", f"delsub {s_} {key} {key.split(':')[2]}", f"deltopic {s_} {key}",
+                       f"deltopic {s_} {key} hard=1"])
+        ins = [o]
+        if faults and o.split(" ")[0] in ("sub", "deltopic", "get") and r2.chance(1, 5):
+            ins.insert(0, f"fail {1 + r2.below(2)}")
         out = out[:pos] + ins + out[pos:]
     return out
 
